@@ -49,7 +49,7 @@ def build():
         # a sheet whose used range ends in row 1: the cells of the area below it exist only as overrides
         fs.append(('short-sheet', 'U!A1:A%d' % n, list(range(n)), []))
         if n == 4:
-            fs.append(('rectangle', 'Q!A1:B2', [0, 1, 2, 3], []))
+            fs.append(('rectangle', "'2024'!A1:B2", [0, 1, 2, 3], []))
         for k in range(1, n):
             fs.append((f'split{k}+{n - k}', f'C!A1:A{k},C!A{k + 1}:A{n}', list(range(n)), []))
         if n >= 2:
@@ -88,7 +88,7 @@ def build():
                 cells[addr] = f'={f}({arg},C!A2:A{max(n, 2)})'
                 meta[n].append((addr, f, name, list(range(1, n)), []))
             r += 1
-    sheets = [('S', cells), ('R', {'F2': 999}), ('C', {'B5': 999}), ('Q', {'C3': 999}), ('O t', {'B5': 999}), ('U', {'D1': 999})]
+    sheets = [('S', cells), ('R', {'F2': 999}), ('C', {'B5': 999}), ('2024', {'C3': 999}), ('O t', {'B5': 999}), ('U', {'D1': 999})]
     return sheets, meta
 
 
@@ -96,7 +96,7 @@ SCAFFOLD, META = build()
 POS = {  # sheet -> list of addresses in vector order
     'R': [f'{c}1' for c in RCOLS], 'C': [f'A{i}' for i in range(1, 6)], 'O t': [f'A{i}' for i in range(1, 6)],
     'U': [f'A{i}' for i in range(1, 6)],
-    'Q': ['A1', 'B1', 'A2', 'B2'],
+    '2024': ['A1', 'B1', 'A2', 'B2'],     # a sheet titled with digits that are not its position
 }
 
 
